@@ -9,12 +9,25 @@ sys.path.insert(0, os.path.join(os.path.dirname(os.path.abspath(__file__)), '..'
 import gen_runtime
 from extract import LostAnchor
 
-G_SCHEMAS = ['closure_plus', 'g_lookahead', 'char_rule', 'optional_multi', 'closure_star', 'nest_opt_closure_opt', 'seq_rebind', 'nest_closure_in_closure', 'include_chain', 'include_chain__inl', 'term_range_char_eoi', 'nest_lookahead_closure']
+G_SCHEMAS = ['closure_plus', 'g_lookahead', 'char_rule', 'optional_multi', 'closure_star', 'nest_opt_closure_opt', 'seq_rebind', 'nest_closure_in_closure', 'include_chain', 'include_chain__inl', 'term_range_char_eoi', 'nest_lookahead_closure', 'lookahead_nested', 'boxed', 'box_merge', 'seq3']
 
-def run_g(ctx):
-    if 'G' in ctx.cache: return ctx.cache['G']
-    res = {}
-    ctx.cache['G'] = res
+def schemas_for(ctx, prop):
+    """the units that carry an obligation of the property (read from the contract files)"""
+    import extract as _ex
+    out = []
+    for schema in G_SCHEMAS:
+        try:
+            cs = _ex.parse_contracts(os.path.join(ctx.root, 'contracts', 'g_%s.contracts' % schema))
+        except Exception:
+            continue
+        if any(prop in cl.props and cl.kind != 'requires' for c in cs.values() for cl in c.clauses + [x for l in c.loops.values() for x in l]):
+            out.append(schema)
+    return out
+
+def run_g(ctx, prop=None):
+    res = ctx.cache.setdefault('G', {})
+    wanted = [s for s in (schemas_for(ctx, prop) if prop else G_SCHEMAS) if s not in res]
+    if not wanted: return res
     T = layer_t.prepare(ctx)
     def one(schema):
         entry = {'schema': schema, 'status': 'not established', 'why': None, 'failures': [], 'index': {'clauses': []}}
@@ -62,15 +75,17 @@ def run_g(ctx):
     import concurrent.futures
     def guarded(schema):
         return one(schema)
-    with concurrent.futures.ThreadPoolExecutor(max_workers=len(G_SCHEMAS)) as ex:
-        futs = {schema: ex.submit(guarded, schema) for schema in G_SCHEMAS}
+    with concurrent.futures.ThreadPoolExecutor(max_workers=8) as ex:
+        futs = {schema: ex.submit(guarded, schema) for schema in wanted}
         for schema, f in futs.items():
             res[schema] = f.result()
     return res
 
 def g_part(ctx, prop):
     out = {'obligations': 0, 'discharged': 0, 'samples': [], 'functions': [], 'units': [], 'notes': [], 'escalate': [], 'log': []}
-    for schema, e in run_g(ctx).items():
+    mine_schemas = schemas_for(ctx, prop)
+    for schema, e in run_g(ctx, prop).items():
+        if schema not in mine_schemas: continue
         mine = [c for c in e['index'].get('clauses', []) if prop in c['props']]
         import extract as _ex
         expected = 0
